@@ -263,7 +263,13 @@ fn src_val(decls: &[TDecl], t: &TTy, v: &TV, floats: &mut Vec<f64>, atom: bool) 
             s
         }
         (TTy::Ref(n), TV::Rec(ys)) => match &decls[*n] {
-            TDecl::Record(fs) => format!("{{ {} }}", fs.iter().zip(ys).map(|((name, ft), y)| format!("{} = {}", name, src_val(decls, ft, y, floats, false))).collect::<Vec<_>>().join(", ")),
+            // bound with its type: a bare record literal containing `None` / `[]` is generalised and
+            // then rejected where a monomorphic record is expected (e.g. as a map value)
+            TDecl::Record(fs) => format!(
+                "(let rec_{n} : T{n} = {{ {} }} in rec_{n})",
+                fs.iter().zip(ys).map(|((name, ft), y)| format!("{} = {}", name, src_val(decls, ft, y, floats, false))).collect::<Vec<_>>().join(", "),
+                n = n
+            ),
             _ => "?".into(),
         },
         (TTy::Ref(n), TV::Con(k, y)) => match &decls[*n] {
